@@ -8,6 +8,7 @@ import (
 	"net"
 	"net/http"
 	"net/url"
+	"sort"
 	"strconv"
 	"strings"
 	"time"
@@ -91,3 +92,5 @@ func errStr(err error) string {
 const sec = time.Second
 
 func timeNowPlus(d time.Duration) time.Time { return time.Now().Add(d) }
+
+func sortStrings(s []string) { sort.Strings(s) }
